@@ -175,13 +175,15 @@ Record WI (w : world) : Prop := mkWI {
   wi_lt : forall r, In r (w_recs w) -> (r_run r < w_nrun w)%N;
   wi_rec : forall r, In r (w_recs w) -> rec_ok (w_now w) r;
   wi_del_log : forall e, In e (w_log w) -> e_topic e = TDelete -> del_ready (w_recs w) (e_run e);
-  wi_del_out : forall o, In o (w_outbox w) -> o_topic o = TDelete -> del_ready (w_recs w) (o_run o)
+  wi_del_out : forall o, In o (w_outbox w) -> o_topic o = TDelete -> del_ready (w_recs w) (o_run o);
+  (* an event a consumer holds while it waits for the consume lag is an event of its topic in the log *)
+  wi_lag : forall p idx e d, In (p, PLag idx e d) (w_procs w) -> In e (w_log w) /\ e_topic e = unit_topic (snd p)
 }.
 
 Lemma WI_frame (w w' : world) :
   w_recs w' = w_recs w -> w_nrun w' = w_nrun w -> w_now w' = w_now w -> w_log w' = w_log w -> w_outbox w' = w_outbox w ->
-  WI w -> WI w'.
-Proof. intros E1 E2 E3 E4 E5 [H1 H2 H3 H4 H5]. constructor; rewrite ?E1, ?E2, ?E3, ?E4, ?E5; assumption. Qed.
+  w_procs w' = w_procs w -> WI w -> WI w'.
+Proof. intros E1 E2 E3 E4 E5 E6 [H1 H2 H3 H4 H5 H6]. constructor; rewrite ?E1, ?E2, ?E3, ?E4, ?E5, ?E6; assumption. Qed.
 
 Definition nostale (p : plan) : Prop := forall k o, plan_at p k o <> FStale.
 
@@ -268,6 +270,7 @@ Proof.
         apply (lc_del_closed (r_state p)); [exact Hs|apply store_ok_lc, Hok].
       * exists p. split; [|exact Hs]. rewrite upsert_find_other; assumption.
     + exists r'. split; [cbn; apply upsert_find_same, Hnd|]. left. eapply route_topic_delete, Ht.
+  - apply (wi_lag w HW).
 Qed.
 
 End Inv.
